@@ -169,9 +169,13 @@ func liveSet(sn *pfcp.VerifSnap) map[uint64]*pfcp.VerifSess {
 func Analyze(tr *Trace) *Analyzer {
 	a := &Analyzer{tr: tr, nodes: map[int]*mNode{}, sess: map[int]*mSess{}, byUP: map[uint64]*mSess{}}
 	a.NoFaults = !tr.NoRemRep
-	for k := range tr.Faults {
-		if k < RemBase { // refused removals leave a well-defined state (the rule stays); other faults do not
-			a.NoFaults = false
+	// refused removals (the rule stays) and failed queries (no report, nothing else) leave a well-defined state;
+	// failing creates / updates do not (the C11/C12 expectations are then switched off for the whole trace)
+	for _, st := range tr.Steps {
+		for _, c := range st.Calls {
+			if c.Fault != "" && c.Op != "Remove" && c.Op != "Query" {
+				a.NoFaults = false
+			}
 		}
 	}
 	a.refused = map[RuleKey]bool{}
@@ -813,6 +817,14 @@ func (a *Analyzer) c11c12(st *Step, s *mSess, deletion bool) {
 		}
 		return ref
 	}
+	queryFailed := func(id uint32) bool {
+		for _, c := range st.Calls {
+			if c.Op == "Query" && c.Kind == "URR" && c.ID == uint64(id) && c.Fault != "" {
+				return true
+			}
+		}
+		return false
+	}
 	if deletion {
 		for id, m := range s.urr {
 			if m.live {
@@ -900,6 +912,17 @@ func (a *Analyzer) c11c12(st *Step, s *mSess, deletion bool) {
 			}
 		}
 	}
+	// a usage query the data plane failed yields no report: what that URR owes in this response is not asserted
+	noImm := map[uint32]bool{}
+	for u := range s.urr {
+		if queryFailed(u) {
+			if required[u] > 0 && !removedURR[u] && !deletion {
+				delete(required, u)
+				allowed[u] = true
+			}
+			noImm[u] = true
+		}
+	}
 	for _, pa := range s.pdrAmb {
 		if pa {
 			ambiguous = true
@@ -964,6 +987,9 @@ func (a *Analyzer) c11c12(st *Step, s *mSess, deletion bool) {
 			ids[u] = true
 		}
 		for u := range ids {
+			if noImm[u] {
+				continue
+			}
 			if immer[u] != gotImm[u] {
 				a.add("C12", "immediate-report-count", fmt.Sprintf("URR %d: %d immediate reports for %d Query URR IEs", u, gotImm[u], immer[u]), i)
 			}
